@@ -58,6 +58,30 @@ var varintPatterns = [][]byte{
 
 // apply writes one mutation into the image; returns the kind it hit.
 func apply(img []byte, refs []fmtb.Ref, m mut, u int) string {
+	if m.Class == 4 {
+		// a record header widened by 8 bytes whose first serial type is a
+		// 9-byte varint (negative, or huge): both edits are needed together
+		var hs []fmtb.Ref
+		for _, r := range refs {
+			if r.Kind == "rec.hdrsize" && r.Len == 1 {
+				hs = append(hs, r)
+			}
+		}
+		if len(hs) == 0 {
+			return "none"
+		}
+		r := hs[m.Ref%len(hs)]
+		if r.Off+10 >= len(img) || img[r.Off] > 0x70 {
+			return "beyond-truncation"
+		}
+		img[r.Off] += 8
+		pats := [][]byte{
+			{0xff, 0xff, 0xff, 0xff, 0xff, 0xff, 0xff, 0xff, 0xff}, {0xff, 0xff, 0xff, 0xff, 0xff, 0xff, 0xff, 0xff, 0xfe},
+			{0x80, 0x80, 0x80, 0x80, 0x80, 0x80, 0x80, 0x80, 0x0d}, {0xbf, 0xff, 0xff, 0xff, 0xff, 0xff, 0xff, 0xff, 0xff}, {0xc0, 0x80, 0x80, 0x80, 0x80, 0x80, 0x80, 0x80, 0x00},
+		}
+		copy(img[r.Off+1:], pats[m.Choice%len(pats)])
+		return "rec.serial9"
+	}
 	var sel []fmtb.Ref
 	for _, r := range refs {
 		if classOf(r.Kind) == m.Class%4 {
@@ -207,7 +231,7 @@ func TestC05Mutate(t *testing.T) {
 			s := mutSpec{Img: btgen.Image(t, btgen.Opts{MaxRows: 20, Indexes: true, WR: true, LongValues: true, RowidAlias: true, PageSizes: []int{512, 512, 512, 1024, 4096}})}
 			n := rapid.IntRange(0, 3).Draw(t, "nmut")
 			for i := 0; i < n; i++ {
-				s.Muts = append(s.Muts, mut{Class: rapid.SampledFrom([]int{0, 0, 0, 1, 1, 2, 3, 3}).Draw(t, "class"), Ref: rapid.IntRange(0, 100000).Draw(t, "ref"), Choice: rapid.IntRange(0, 1000).Draw(t, "choice")})
+				s.Muts = append(s.Muts, mut{Class: rapid.SampledFrom([]int{0, 0, 0, 1, 1, 2, 3, 3, 4}).Draw(t, "class"), Ref: rapid.IntRange(0, 100000).Draw(t, "ref"), Choice: rapid.IntRange(0, 1000).Draw(t, "choice")})
 			}
 			switch rapid.IntRange(0, 9).Draw(t, "extra") {
 			case 0:
